@@ -82,6 +82,7 @@ private:
     //--------------//
     virtual Action visitTranslationUnit(const TranslationUnitSyntax*) override;
     virtual Action visitFunctionDefinition(const FunctionDefinitionSyntax*) override;
+    virtual Action visitParameterDeclaration(const ParameterDeclarationSyntax*) override;
     virtual Action visitFieldDeclaration(const FieldDeclarationSyntax*) override;
 
     /* Specifiers */
